@@ -341,6 +341,45 @@ theorem deriv_alias_cache_ok (d : St) (g : Good d) (m : String × List (List Eve
 
 example : ∃ m ∈ derivAliasTable, ∃ es ∈ m.2, es.any (· == .write .values .aug) = true := by decide
 
+/-! #### the 'unshrunk' entry of a SHRUNK object: mutators applied to the shrunk object itself -/
+
+/-- T2: on every returning path of every public mutator, whatever is written to the content of the object (values,
+    mask, derivatives, units) is followed by `clear` or by the removal of 'unshrunk'.  (A shrunk object is read-only:
+    `insert_deriv`, and `delete_deriv`/`set_units` with `override=True`, are the mutators that reach their writes.) -/
+theorem policy_unshrunk_covers :
+    ∀ m ∈ publicTable, ∀ es ∈ m.2, endsRet es = true → unOK es = true := by
+  have h : (publicTable.all fun m => m.2.all fun es => !endsRet es || unOK es) = true := by decide +kernel
+  intro m hm es hes hr
+  have := (List.all_eq_true.mp ((List.all_eq_true.mp h) m hm)) es hes
+  simpa [hr] using this
+
+/-- hence: after any sequence of completed public mutators applied to a shrunk object whose cached original was
+    right, `unshrink` answers the same with and without the cache -/
+theorem unshrunk_of_mutated_shrunk_object (paths : List (List Event))
+    (hp : ∀ es ∈ paths, endsRet es = true ∧ ∃ m ∈ publicTable, es ∈ m.2)
+    (s0 : ShrunkSt) (h0 : ShrunkOK s0) :
+    sUnshrink true (paths.foldl (fun s es => sRun es s) s0) =
+      sUnshrink false (paths.foldl (fun s es => sRun es s) s0) := by
+  apply shrunk_same_answer
+  induction paths generalizing s0 with
+  | nil => exact h0
+  | cons es paths ih =>
+    obtain ⟨hr, m, hm, hes⟩ := hp es List.mem_cons_self
+    exact ih (fun e he => hp e (List.mem_cons_of_mem _ he)) _
+      (shrunk_ok_path es h0 (policy_unshrunk_covers m hm es hes hr))
+
+example : ∃ m ∈ publicTable, ∃ es ∈ m.2, endsRet es = true ∧ es.any (· == .write .derivs .store) = true := by
+  decide +kernel
+
+/-- regression witness (seeded change C18y-b): `insert_deriv` ending with `_cache_.pop('wod', None)` instead of
+    `clear()` is rejected, and the model shows the two answers: `s = a.shrink(m); s.insert_deriv(…); s.unshrink(m)` -/
+theorem insert_deriv_pop_wod_counterexample :
+    unOK [.mayFill, .write .derivs .store, .write .derivs .store, .cacheDel .wod, .ret] = false ∧
+    sUnshrink true (sRun [.mayFill, .write .derivs .store, .write .derivs .store, .cacheDel .wod, .ret] ⟨5, 0, true, 0⟩)
+      ≠ sUnshrink false (sRun [.mayFill, .write .derivs .store, .write .derivs .store, .cacheDel .wod, .ret]
+          ⟨5, 0, true, 0⟩) := by
+  constructor <;> decide
+
 /-! #### regression witnesses: the two defects repaired in /repo, as they were on the pinned tree -/
 
 /-- pinned `Qube.__iand__` with a Qube argument (qube.py:4070-4082 before the fix): no `cacheClear` -/
